@@ -771,7 +771,7 @@ func run(dir string, seed uint64, tier string) error {
 			{Name: "s/d/x", Typeflag: tar.TypeReg, Mode: 0o644}, {Name: "s/d/", Typeflag: tar.TypeDir, Mode: 0o755}}, "corpus",
 			"C16-F7: a directory named twice in the file list multiplies its records on every write")
 		installedCase(w, base(), []tar.Header{{Name: "a//", Typeflag: tar.TypeDir, Mode: 0o755}, {Name: "a/x", Typeflag: tar.TypeReg, Mode: 0o644}}, "corpus",
-			"C16-F8: a directory name ending in two slashes is written F:a/ the first time and F:a the second")
+			"fixed 8e9dafb (was C16-F8): a directory name ending in two slashes was written F:a/ the first time and F:a the second; now F:a both times")
 		installedCase(w, base(), []tar.Header{{Name: "./a/", Typeflag: tar.TypeDir, Mode: 0o755}, {Name: "a/b", Typeflag: tar.TypeDir, Mode: 0o700, Uid: 7}, {Name: "./a/b/c.d/", Typeflag: tar.TypeReg, Mode: 0o644},
 			{Name: "a/b/e", Typeflag: tar.TypeReg, Mode: 0o600, PAXRecords: map[string]string{apk.VerifPaxRecordsChecksumKey: "Q1abc"}}}, "corpus",
 			"c16_installed_fixpoint inside the envelope: mixed spellings, a file name with a trailing slash, a Z: line")
